@@ -282,6 +282,8 @@ func naturalFailures(e *fw.Env) {
 		nat{"own-rule:fees-above-the-amount", nil, world.USDN, big.NewInt(1_000_000), spec.Spec{HasFee: true, Fees: []spec.Fee{{Recipient: rc[1], IsBPS: true, BPS: 6000}, {Recipient: rc[2], Amount: "400001"}}, Route: internal}},
 		nat{"own-rule:paused-fee-action", pauseFee, world.USDC, big.NewInt(1_000_000), spec.Spec{HasFee: true, Fees: []spec.Fee{{Recipient: rc[1], IsBPS: true, BPS: 10}}, Route: internal}},
 		nat{"own-rule:paused-protocol", func(ctx sdk.Context) error { return PauseProtocol(w, ctx, "PROTOCOL_CCTP") }, world.USDC, big.NewInt(1_000_000), spec.Spec{HasFee: true, Fees: []spec.Fee{{Recipient: rc[1], IsBPS: true, BPS: 10}}, Route: cctp}},
+		nat{"own-rule:coin-native-to-the-sending-chain", nil, world.USDC, big.NewInt(1_000_000), spec.Spec{Route: internal}},
+		nat{"own-rule:voucher-of-another-channel", nil, world.USDC, big.NewInt(1_000_000), spec.Spec{Route: internal}},
 		nat{"own-rule:paused-counterparty", func(ctx sdk.Context) error { return PauseCrossChains(w, ctx, "PROTOCOL_HYPERLANE", []string{"1"}) }, world.USDC, big.NewInt(1_000_000), spec.Spec{Route: hyp}},
 	)
 	feeOne := [][]spec.Fee{{{Recipient: rc[1], IsBPS: true, BPS: 100}}}
@@ -301,6 +303,15 @@ func naturalFailures(e *fw.Env) {
 		t := l.NewTransfer(e.R, c.denom, c.amt, &s)
 		if m, ok := memoOverride[c.name]; ok {
 			t.Spec, t.Memo = nil, m
+		}
+		// coins the orbiter does not handle (only returning Noble-native coins are)
+		switch c.name {
+		case "own-rule:coin-native-to-the-sending-chain":
+			d := "uatom"
+			t.RawDenom = &d
+		case "own-rule:voucher-of-another-channel":
+			d := world.Port + "/channel-77/" + world.USDC
+			t.RawDenom = &d
 		}
 		before := w.StoreDigest(ctx)["orbiter"]
 		o := run.Do(w, ctx, t, run.Mode{Kind: "H"})
